@@ -2,6 +2,7 @@ import KyberModel.Lib.Ed25519
 import KyberModel.Lib.PrimeOrder
 import KyberModel.Lib.ModCast
 import KyberModel.Lib.WeierstrassCurves
+import KyberModel.Lib.TwistCurves
 /-
 C01 — group operations obey abelian-group and scalar-action laws.
 Property theorems, stated on the executable model (naturals mod p), for every valid operand
@@ -247,3 +248,52 @@ theorem pow_pred_order (h2 : 2 < P) (Q a : Nat) (hQ0 : 0 < Q) (hQ : powMod a Q P
   exact eq_inv_of_mul_eq_one_left this
 
 end Kyber.Residue.Laws
+
+/-!
+Section `Twist`: BN256 and BN254 G2. The executable twist model over `F_p[i]/(i²+1)` (pairs of naturals,
+`Groups/Decode.lean`) is Mathlib's elliptic-curve group over the field `QF p` built in `Lib/Fp2Field.lean`
+(`Lib/TwistModel.lean`), so the identities hold for ALL valid points and ALL scalars.
+-/
+namespace Kyber.Twist.Instances
+open Kyber Kyber.TwistModel Kyber.TwistCurves Kyber.TwistFacts
+
+/-- All identities of C01 on the BN256 twist model. -/
+theorem bn256_laws {P Q R : Fp2.Pt} (hP : Valid BN256.twist P) (hQ : Valid BN256.twist Q)
+    (hR : Valid BN256.twist R) (a b : Nat) :
+    Fp2.addPt BN256.twist (Fp2.addPt BN256.twist P Q) R = Fp2.addPt BN256.twist P (Fp2.addPt BN256.twist Q R)
+    ∧ Fp2.addPt BN256.twist P Q = Fp2.addPt BN256.twist Q P
+    ∧ Fp2.addPt BN256.twist P (Fp2.negPt BN256.twist P) = none
+    ∧ Fp2.smul BN256.twist (a + b) P = Fp2.addPt BN256.twist (Fp2.smul BN256.twist a P) (Fp2.smul BN256.twist b P)
+    ∧ Fp2.smul BN256.twist a (Fp2.smul BN256.twist b P) = Fp2.smul BN256.twist (a * b) P
+    ∧ Fp2.smul BN256.twist a (Fp2.addPt BN256.twist P Q) = Fp2.addPt BN256.twist (Fp2.smul BN256.twist a P) (Fp2.smul BN256.twist a Q)
+    ∧ Fp2.smul BN256.twist 0 P = none ∧ Fp2.smul BN256.twist 1 P = P :=
+  TwistModel.laws bn256_good hP hQ hR a b
+
+/-- All identities of C01 on the BN254 twist model. -/
+theorem bn254_laws {P Q R : Fp2.Pt} (hP : Valid BN254.twist P) (hQ : Valid BN254.twist Q)
+    (hR : Valid BN254.twist R) (a b : Nat) :
+    Fp2.addPt BN254.twist (Fp2.addPt BN254.twist P Q) R = Fp2.addPt BN254.twist P (Fp2.addPt BN254.twist Q R)
+    ∧ Fp2.addPt BN254.twist P Q = Fp2.addPt BN254.twist Q P
+    ∧ Fp2.addPt BN254.twist P (Fp2.negPt BN254.twist P) = none
+    ∧ Fp2.smul BN254.twist (a + b) P = Fp2.addPt BN254.twist (Fp2.smul BN254.twist a P) (Fp2.smul BN254.twist b P)
+    ∧ Fp2.smul BN254.twist a (Fp2.smul BN254.twist b P) = Fp2.smul BN254.twist (a * b) P
+    ∧ Fp2.smul BN254.twist a (Fp2.addPt BN254.twist P Q) = Fp2.addPt BN254.twist (Fp2.smul BN254.twist a P) (Fp2.smul BN254.twist a Q)
+    ∧ Fp2.smul BN254.twist 0 P = none ∧ Fp2.smul BN254.twist 1 P = P :=
+  TwistModel.laws bn254_good hP hQ hR a b
+
+/-- Scalars act modulo the group order on every multiple of the generator; `(n-1)P = -P`. -/
+theorem bn256_mod (a : Nat) :
+    Fp2.smul BN256.twist (a % BN256.n) bn256BaseLit = Fp2.smul BN256.twist a bn256BaseLit
+    ∧ Fp2.smul BN256.twist (BN256.n - 1) bn256BaseLit = Fp2.negPt BN256.twist bn256BaseLit :=
+  TwistModel.laws_mod bn256_good bn256_base_valid BN256.n (by decide +kernel) bn256_order_lit a
+
+theorem bn254_mod (a : Nat) :
+    Fp2.smul BN254.twist (a % BN254.n) bn254BaseLit = Fp2.smul BN254.twist a bn254BaseLit
+    ∧ Fp2.smul BN254.twist (BN254.n - 1) bn254BaseLit = Fp2.negPt BN254.twist bn254BaseLit :=
+  TwistModel.laws_mod bn254_good bn254_base_valid BN254.n (by decide +kernel) bn254_order_lit a
+
+/-- Non-vacuity: the generators are valid, not the identity, and killed by the prime group order. -/
+example : Valid BN256.twist bn256BaseLit ∧ bn256BaseLit ≠ none ∧ Nat.Prime BN256.n :=
+  ⟨bn256_base_valid, by decide, BN256.n_prime⟩
+
+end Kyber.Twist.Instances
